@@ -2,7 +2,6 @@ import RsModel.Lemmas.SMMapped
 import RsModel.Lemmas.MappedNE
 import RsModel.Lemmas.ModeConcat3
 import RsModel.Lemmas.ModeSorted
-import RsModel.Lemmas.ModeTree2
 /-!
 # C03 for the combinator: the text-less stream answers like the normal stream
 
@@ -539,7 +538,9 @@ for an ASCII text and an outer map that is strictly sorted with every mapped seg
 theorem streamCombined_m3 (t : Text) (sm : SMap) (n : Text) (os : Option Text) (im : SMap) (rm : Bool)
     (ha : IsAscii t) (hl : t.length ≤ USIZE_MAX) (hs : sortedFrom 1 0 (decode sm.mappings)) (hstrict : (decode sm.mappings).Pairwise mlt)
     (hseg : ∀ m ∈ decode sm.mappings, SegOK (splitLines t) (adv startPos t).line (adv startPos t).col m) :
-    M3 (streamCombined t sm n os im rm ⟨true, true⟩) (streamCombined t sm n os im rm ⟨true, false⟩) t := by
+    sortedFrom 1 0 (chunkMs (streamCombined t sm n os im rm ⟨true, true⟩).evs)
+    ∧ declsOf (streamCombined t sm n os im rm ⟨true, true⟩).evs = declsOf (streamCombined t sm n os im rm ⟨true, false⟩).evs
+    ∧ LookEq t (chunkMs (streamCombined t sm n os im rm ⟨true, true⟩).evs) (chunkMs (streamCombined t sm n os im rm ⟨true, false⟩).evs) := by
   obtain ⟨mN, mF⟩ := streamSM_mapped t sm ha hl hs hstrict hseg
   have hlook := streamSM_lookEq t sm ha hl hs hseg
   have hsF := streamSM_final_sorted t sm hs
